@@ -26,6 +26,19 @@ import (
 	"github.com/elnosh/gonuts/wallet"
 )
 
+var dvDeepCorpus = []string{
+	"000000000000000000000000000000000000000000000000000000000000590d",
+	"0000000000000000000000000000000000000000000000000000000000005cb2",
+	"000000000000000000000000000000000000000000000000000000000000f5df",
+	"000000000000000000000000000000000000000000000000000000000001095e",
+	"0000000000000000000000000000000000000000000000000000000000033043",
+	"00000000000000000000000000000000000000000000000000000000000048ca",
+	"0000000000000000000000000000000000000000000000000000000000087de8",
+	"000000000000000000000000000000000000000000000000000000000003960a",
+	"00000000000000000000000000000000000000000000000000000000000e9c57",
+	"000000000000000000000000000000000000000000000000000000000009292b",
+}
+
 func init() {
 	register("deriv", []string{"C11", "C09"},
 		"real Go derivations vs Lean Spec.* (driver) vs math/big monitor, bit for bit: (a) hash_to_curve on messages of length 0..600 "+
@@ -451,6 +464,12 @@ func runDeriv(c *Ctx) {
 	}
 	if deepestMsg != nil {
 		addH2C(deepestMsg, "deepest")
+	}
+	// corpus of messages known (by brute force over SHA-256, a fact independent of the repository) to need 13..22
+	// counter iterations: far beyond what a random search reaches in a quick run
+	for _, m := range dvDeepCorpus {
+		addH2C([]byte(m), "deep-corpus")
+		c.Hist("h2c-deep-corpus", fmt.Sprintf("depth=%02d", dvH2CDepth([]byte(m))))
 	}
 	c.Res.Notes = append(c.Res.Notes, fmt.Sprintf("h2c depth pool: searched %d random messages, deepest %d iterations", searched, deepest))
 	leanTotal += b.flush("h2c")
